@@ -384,7 +384,8 @@ func build(h *hreq, r *gocql.VerifRequest) (frame []byte, outcome string) {
 	return b, ""
 }
 
-// mapOrder reads back the key order of the leading [string map] / [bytes map] of the body.
+// mapOrder reads back the key order of the leading [string map] / [bytes map] of the body. Entry
+// sizes are taken from the map that was asked for (the lengths on the wire may be truncated).
 func mapOrder(h *hreq, frame []byte) (keys [][]byte, ok bool) {
 	defer func() {
 		if recover() != nil {
@@ -395,22 +396,29 @@ func mapOrder(h *hreq, frame []byte) (keys [][]byte, ok bool) {
 	if h.v > 2 {
 		hs = 9
 	}
-	b := frame[hs:]
-	n := int(binary.BigEndian.Uint16(b))
-	b = b[2:]
-	for i := 0; i < n; i++ {
-		kl := int(binary.BigEndian.Uint16(b))
-		keys = append(keys, b[2:2+kl])
-		b = b[2+kl:]
-		if h.kind == "startup" {
-			vl := int(binary.BigEndian.Uint16(b))
-			b = b[2+vl:]
-		} else {
-			vl := int(int32(binary.BigEndian.Uint32(b)))
-			b = b[4:]
-			if vl > 0 {
-				b = b[vl:]
+	b := frame[hs+2:]
+	m := *h.theMap()
+	used := make([]bool, len(m))
+	for i := 0; i < len(m); i++ {
+		kl := binary.BigEndian.Uint16(b)
+		found := -1
+		for j, e := range m {
+			if !used[j] && uint16(len(e.k)) == kl && bytes.HasPrefix(b[2:], e.k) {
+				found = j
+				break
 			}
+		}
+		if found < 0 {
+			return nil, false
+		}
+		used[found] = true
+		e := m[found]
+		keys = append(keys, e.k)
+		b = b[2+len(e.k):]
+		if h.kind == "startup" {
+			b = b[2+len(e.v):]
+		} else {
+			b = b[4+len(e.v):]
 		}
 	}
 	return keys, true
